@@ -6,6 +6,7 @@ import (
 	"go/token"
 	"strings"
 	"sync"
+	"time"
 
 	"github.com/cosmos72/gomacro/base"
 	"github.com/cosmos72/gomacro/fast"
@@ -208,7 +209,7 @@ func c19Programs(c *core.Ctx) ([]*ProgCase, error) {
 		if calls == 0 {
 			return
 		}
-		if (n+int(c.Seed))%c.Pick(60, 12) != 0 {
+		if (n+int(c.Seed))%c.Pick(240, 20) != 0 {
 			return
 		}
 		pc := c07Render(&rec, line)
@@ -277,13 +278,26 @@ func c19StopSig(cs *c19Case, rec *c19Rec, d *c19Debugger) string {
 	if k > 0 && k-1 < len(rec.Cmds) {
 		cmd = rec.Cmds[k-1]
 	}
+	// predicate SigCallerEnteredRunning: the first stop that is missing lies in a frame shallower
+	// than a breakpoint that was reached while running freely (after `continue`): that caller
+	// frame was entered by the executor's fast path and only polls for debug mode every 14
+	// statements
+	if k < len(rec.Stops) {
+		miss := cs.ground[rec.Stops[k].At-1]
+		for j := 0; j < k; j++ {
+			if rec.Stops[j].Kind == "bp" && j > 0 && j-1 < len(rec.Cmds) && rec.Cmds[j-1] == "continue" &&
+				miss.D < cs.ground[rec.Stops[j].At-1].D {
+				return "SigCallerEnteredRunning:stop-in-caller-missed"
+			}
+		}
+	}
 	return "stop-after(" + cmd + ")-differs"
 }
 
 func runC19(c *core.Ctx) error {
 	// (M) documented rule == implementation rule on all abstract traces
 	if _, err := c.TLC(core.TLCOpts{Spec: "Debug", MCDefs: "c_Cases == <<>>\n", CfgName: "doc-rule-equivalence",
-		Cfg: c19Cfg(c.Pick(4, 5), 3, true, false, "DocAgrees"), Timeout: 0}); err != nil {
+		Cfg: c19Cfg(c.Pick(3, 5), 3, true, false, "DocAgrees"), Timeout: 30 * time.Minute}); err != nil {
 		return err
 	}
 	progs, err := c19Programs(c)
